@@ -747,7 +747,7 @@ func main() {
 		repo = "/repo"
 	}
 	files := corpusFiles(repo)
-	maxFiles := 60
+	maxFiles := 40
 	if f.Tier == "thorough" {
 		maxFiles = len(files)
 	}
